@@ -116,6 +116,8 @@ impl DAffine3 {
     /// Panics if `slice` is less than 12 elements long.
     #[inline]
     pub fn write_cols_to_slice(self, slice: &mut [f64]) {
+        // check the length once, before anything is written
+        let slice = &mut slice[..12];
         self.matrix3.write_cols_to_slice(&mut slice[0..9]);
         self.translation.write_to_slice(&mut slice[9..12]);
     }
